@@ -41,6 +41,7 @@ class Monitor:
     def __init__(self):
         self.truth = {}
         self.rule = {}
+        self.wb = []
 
     def see(self, v, origin, rule=False):
         if isinstance(v, Table):
@@ -58,11 +59,29 @@ class Monitor:
         if key not in self.truth:
             ev["example"] = repr(vals[:6])
             self.truth[key] = ev
+            self.writeback(v, vals, origin)
         if rule and vals:
             if key not in self.rule:
                 r = dict(ev)
                 r["op"] = "rule"
                 self.rule[key] = r
 
+    def writeback(self, v, vals, origin):
+        """C03, equivalent form: writing any element back into its own position is accepted
+        and never changes the dtype (probed on a copy, first 8 positions)."""
+        try:
+            c = v.copy()
+            before = A.dtype_abs(c.schema())
+            for i in range(min(len(vals), 8)):
+                c[i] = vals[i]
+            after = A.dtype_abs(c.schema())
+            if before != after:
+                self.wb.append({"origin": origin, "values": repr(vals[:8]), "observed": [before, after], "what": "dtype changed"})
+            elif not views_equal(list(c), vals):
+                self.wb.append({"origin": origin, "values": repr(vals[:8]), "observed": repr(list(c)[:8]), "what": "contents changed"})
+        except Exception as ex:      # noqa: BLE001
+            self.wb.append({"origin": origin, "values": repr(vals[:8]), "dtype": str(v.schema()),
+                            "observed": type(ex).__name__ + ": " + str(ex)[:80], "what": "write-back rejected"})
+
     def dump(self):
-        return {"truth": list(self.truth.values()), "rule": list(self.rule.values())}
+        return {"truth": list(self.truth.values()), "rule": list(self.rule.values()), "writeback": self.wb}
